@@ -212,7 +212,7 @@ def native_bound(vals, np, om):
 
 V = '(val if is_scalar(val) else val[i])'
 UNB = '(%s <= -INF_BOUND if is_lower else %s >= INF_BOUND)' % (V, V)
-contract(AS + '::Autoscaler._scale_bound', ['C20'],
+contract(AS + '::Autoscaler._scale_bound', ['C20', 'C21'],
          dict(self=Obj('Autoscaler'), val=OneOf(None, Real(), Arr('n')), adder=OneOf(None, Real(), Arr('n')),
               scaler=OneOf(None, Real(), Arr('n')), size=Size('n'), is_lower=OneOf(True, False)),
          requires=['n >= 1'],
@@ -268,7 +268,7 @@ for _lo, _up, _eq in ((Arr('n'), Real(), None), (None, Arr('n'), None), (Real(),
         v, img = _img("%s['equals']" % GM)
         ens.append('all(equals_data[s0 + i] == (INF_BOUND if %s >= INF_BOUND else %s) for i in range(n))' % (v, img))
         ens.append('all(implies(not (s0 <= j and j < s0 + n), equals_data[j] == old(equals_data[j])) for j in range(N))')
-    contract(AS + '::Autoscaler._compute_scaled_bounds@loopbody(scaler)', ['C20'],
+    contract(AS + '::Autoscaler._compute_scaled_bounds@loopbody(scaler)', ['C20', 'C21'],
              dict(self=_csb_self(_lo, _up, _eq), voi_type='constraint', name='g',
                   vmeta=DictT({'slice': SliceT('s0', 's1'), 'size': Size('n')}),
                   lower_data=Arr('N'), upper_data=Arr('N'), equals_data=Arr('N')),
